@@ -37,7 +37,13 @@ fn src_expr(rng: &mut Rng, depth: usize, clonable: bool) -> String {
         3 => format!("cycle({})", src_expr(rng, depth - 1, true)),
         4 => format!("padc({},{},{})", small(rng), count(rng), src_expr(rng, depth - 1, clonable)),
         5 | 6 => format!("pade({},{})", count(rng), src_expr(rng, depth - 1, clonable)),
-        7 => format!("cache({})", src_expr(rng, depth - 1, clonable)),
+        7 => {
+            if rng.chance(1, 2) || !cfg!(feature = "units") {
+                format!("cache({})", src_expr(rng, depth - 1, clonable))
+            } else {
+                format!("units({})", src_expr(rng, depth - 1, clonable))
+            }
+        }
         _ => {
             if clonable {
                 format!("take({},{})", count(rng), src_expr(rng, depth - 1, clonable))
@@ -111,7 +117,8 @@ pub fn gen_sources(rng: &mut Rng, tier: &Tier) -> Vec<Case> {
     cases
 }
 
-pub const SINKS: [&str; 9] = [
+pub const SINKS: [&str; 10] = [
+    "sink_unit_sum",
     "sink_min", "sink_max", "sink_bounds", "sink_last", "sink_integrate", "sink_mean", "sink_meanvar",
     "sink_stats", "sink_collect",
 ];
@@ -120,12 +127,15 @@ pub const SINKS: [&str; 9] = [
 pub fn gen_sinks(rng: &mut Rng, tier: &Tier) -> Vec<Case> {
     let mut cases = Vec::new();
     for kind in SINKS {
+        if kind == "sink_unit_sum" && !cfg!(feature = "units") {
+            continue;
+        }
         // empty and one sample
         cases.push(vec![format!("new 1 {}", kind), "fin 1".to_string()]);
         for _ in 0..tier.n(60, 800) {
             let len = rng.range(1, 9) as usize;
             let vals = crate::gen::rat_seq(rng, len);
-            let as_filter = kind != "sink_last" && rng.chance(1, 2);
+            let as_filter = kind != "sink_last" && kind != "sink_unit_sum" && rng.chance(1, 2);
             let mut c = vec![format!("new 1 {}", kind), "fin 1".to_string()];
             for v in vals {
                 c.push(if as_filter { format!("ff 1 {}", v) } else { format!("sink 1 {}", v) });
@@ -196,7 +206,7 @@ fn decorate(rng: &mut Rng, shape: &str) -> String {
             let mut l = go(rng, &inner[..cut]);
             let r = go(rng, &inner[cut + 1..]);
             let mut op = "P";
-            if rng.chance(1, 3) {
+            if rng.chance(1, 3) && cfg!(feature = "or_sink") && cfg!(feature = "or_source") {
                 if !(l.starts_with("P(") || l.starts_with("U(") || l.starts_with("O(")) {
                     l = format!("U({})", l);
                 }
